@@ -127,8 +127,5 @@ Theorem blob_orig_refuted :
   (exists c, restore_v orig_variant fresh_conn (encode ex_st ++ [0]) = Ok (0, c)) /\
   (exists c, restore_v orig_variant fresh_conn (encode (mkA 1 2 [97; 0; 98] [] [])) = Ok (0, c) /\
              abs_conn c = Ok (1, 2, [97], [], [])).
-Proof.
-  exact (conj orig_tag_overread_refuted (conj orig_missing_prev_refuted (conj orig_err_path_refuted
-          (conj orig_trailing_refuted orig_idnul_refuted)))).
-Qed.
+Proof. exact orig_refuted. Qed.
 Print Assumptions blob_orig_refuted.
